@@ -80,10 +80,12 @@ def Kind.join : Kind → Kind → Kind
   | .pkt o r, .pkt o' r' => if o == o' then .pkt o (min r r') else .uninit
   | a, b => if a == b then a else .uninit
 
-/-- registers r0..r10 and the initialised bytes of the 512-byte frame (bit k = byte fp-512+k) -/
+/-- registers r0..r10, the initialised bytes of the 512-byte frame (bit k = byte fp-512+k), and the 8-byte stack slots that
+hold a spilled pointer (frame offset of the slot, kind) -/
 structure AbsState where
   regs : List Kind
   stack : Nat
+  spills : List (Int × Kind) := []
 deriving DecidableEq, Repr, Inhabited
 
 def AbsState.reg (a : AbsState) (r : Nat) : Kind := a.regs.getD r .uninit
@@ -93,10 +95,12 @@ def initState : AbsState :=
   { regs := [.uninit, .ctx, .uninit, .uninit, .uninit, .uninit, .uninit, .uninit, .uninit, .uninit, .fp 0], stack := 0 }
 
 def AbsState.leq (b a : AbsState) : Bool :=
-  b.regs.length == 11 && (List.range 11).all (fun r => (b.reg r).leq (a.reg r)) && (b.stack &&& a.stack == b.stack)
+  b.regs.length == 11 && (List.range 11).all (fun r => (b.reg r).leq (a.reg r)) &&
+    ((b.stack &&& a.stack == b.stack) && b.spills.all (a.spills.contains ·))
 
 def AbsState.join (a b : AbsState) : AbsState :=
-  { regs := (List.range 11).map (fun r => (a.reg r).join (b.reg r)), stack := a.stack &&& b.stack }
+  { regs := (List.range 11).map (fun r => (a.reg r).join (b.reg r)), stack := a.stack &&& b.stack,
+    spills := a.spills.filter (b.spills.contains ·) }
 
 /-! ## syntax: classes, registers read and written, successors -/
 
@@ -371,17 +375,28 @@ def callHelper (cfg : Config) (geo : MapGeometry) (pc : Nat) (a : AbsState) (id 
 
 def loadedScalar (size : Nat) : Kind := .scalar (if size < 8 then some (2 ^ (8 * size) - 1) else none)
 
-/-- LDX / ST / STX / XADD through base kind `b` at `b + off`, `size` bytes: the state after it and the loaded kind -/
-def memStep (cfg : Config) (geo : MapGeometry) (a : AbsState) (rn : Nat) (b : Kind) (off : Int) (size : Nat) (rd wr : Bool) :
-    R (AbsState × Kind) :=
+def overlaps (lo : Int) (size : Nat) (e : Int × Kind) : Bool := decide (e.1 < lo + size) && decide (lo < e.1 + 8)
+
+/-- LDX / ST / STX / XADD through base kind `b` at `b + off`, `size` bytes: the state after it and the loaded kind;
+`src` = the kind of the stored register (STX) -/
+def memStep (cfg : Config) (geo : MapGeometry) (a : AbsState) (rn : Nat) (b : Kind) (off : Int) (size : Nat) (rd wr : Bool)
+    (src : Option Kind := none) : R (AbsState × Kind) :=
   match b with
   | .fp o =>
     let lo := o + off
+    let spill : Bool := match src with | some k => k.isPtr && !rd | none => false
     if !inFrame lo size then .error s!"stack:invalid stack off={lo} size={size}"
     else if lo % (size : Int) != 0 then .error s!"stack:misaligned stack access off {lo} size {size}"
     else if rd && !(cfg.allowUninitStack || (a.stack &&& stackMask lo size == stackMask lo size)) then
       .error s!"stack:invalid read from stack off {lo} size {size}"
-    else .ok (if wr then { a with stack := a.stack ||| stackMask lo size } else a, loadedScalar size)
+    else if spill && size != 8 then .error "stack:invalid size of register spill"
+    else
+      let loaded : Kind := match a.spills.find? (fun e => e.1 == lo && size == 8) with
+        | some e => e.2
+        | none => loadedScalar size
+      let sp := if wr then a.spills.filter (fun e => !overlaps lo size e) else a.spills
+      let sp := match src with | some k => if spill then (lo, k) :: sp else sp | none => sp
+      .ok (if wr then { a with stack := a.stack ||| stackMask lo size, spills := sp } else a, loaded)
   | .mapval f o m =>
     match geo.find f with
     | some mi =>
@@ -397,7 +412,7 @@ def memStep (cfg : Config) (geo : MapGeometry) (a : AbsState) (rn : Nat) (b : Ki
     else if size != 4 then .error "ctx:invalid bpf_context access (size)"
     else if off == 0 then .ok (a, .pkt 0 0)
     else if off == 4 then .ok (a, .pktEnd)
-    else if off == 12 || off == 16 || off == 20 then .ok (a, .scalar (some 4294967295))
+    else if off == 12 || off == 16 then .ok (a, .scalar (some 4294967295))      -- egress_ifindex (20) only for devmap programs
     else .error s!"ctx:invalid bpf_context access off={off} (data_meta not modelled)"
   | .mapvalOrNull _ _ => .error s!"null:R{rn} invalid mem access 'map_value_or_null'"
   | .uninit => .error s!"uninit:R{rn} !read_ok"
@@ -498,6 +513,7 @@ def transfer (cfg : Config) (geo : MapGeometry) (pc : Nat) (i : Insn) (j : Optio
       pure [(pc + 1, a'.set i.dst k)]
     else do
       let (a', _) ← memStep cfg geo a i.dst (a.reg i.dst) i.off size (isAtomic i) true
+        (if isStx i then some (a.reg i.src) else none)
       pure [(pc + 1, a')]
 
 /-! ## the forward pass and its validation -/
